@@ -384,6 +384,41 @@ func (e *Exec) newBindWith(memo bool, scope incr.Scope, sid, gen int, cases []*T
 
 func norm3(x, m int) int { return ((x % m) + m) % m }
 
+// Bind2Key is the value the harness's Bind2 function switches on.
+func Bind2Key(a, b int) int { return norm(3*a + b) }
+
+// newBind2 builds incr.Bind2Context: the library creates a Map2 pairing the two inputs, then a
+// bind over it; the user function is handed whatever scope the library passes it.
+func (e *Exec) newBind2(scope incr.Scope, sid, gen int, cases []*Texp, a, c int) *NRef {
+	pair := e.Next // the internal Map2
+	b := e.Next + 1
+	br := &BRef{B: b, Lhs: pair, Cases: cases}
+	bind := incr.Bind2Context(scope, e.Nodes[a].Inc, e.Nodes[c].Inc, func(_ context.Context, bs incr.Scope, av, cv int) (incr.Incr[int], error) {
+		if err := e.invoke(b, "WFn"); err != nil {
+			return nil, err
+		}
+		x := Bind2Key(av, cv)
+		g := br.Gen
+		root := e.inst(bs, b, g, x, cases[norm3(x, len(cases))])
+		br.Gen++
+		if root == nil {
+			e.emit(Event{K: "EvBindFn", N: b, R: x, Root: -1})
+			return nil, nil
+		}
+		e.emit(Event{K: "EvBindFn", N: b, R: x, Root: root.ID})
+		return root.Inc, nil
+	})
+	lhsChange := bind.Parents()[0]
+	pairNode := lhsChange.(incr.IParents).Parents()[0]
+	pref := e.register("Pair", nil, pairNode, sid, gen, []int{a, c})
+	_ = pref
+	lref := e.register("BindLhs", nil, lhsChange, sid, gen, []int{pair})
+	lref.Bind = br
+	mref := e.register("BindMain", bind, bind, sid, gen, []int{b})
+	mref.Bind = br
+	return mref
+}
+
 // inst builds a template in the bind's scope, children first (the model's creation order).
 func (e *Exec) inst(scope incr.Scope, b, gen, x int, t *Texp) *NRef {
 	switch t.K {
@@ -464,6 +499,8 @@ func (e *Exec) Do(op Op) (out Sample) {
 			e.newBind(e.G, -1, 0, op.Cases, op.A)
 		case "NewBindMemo":
 			e.newBindWith(true, e.G, -1, 0, op.Cases, op.A)
+		case "NewBind2":
+			e.newBind2(e.G, -1, 0, op.Cases, op.A, op.B)
 		case "PurgeMemo":
 			e.Nodes[op.A].Bind.Memo.Cache().Purge(op.V)
 		case "ClearMemo":
